@@ -112,6 +112,8 @@ pub struct Uni {
     pub feedest: Party,
     /// pos[pool] = [narrow A, narrow B, wide]
     pub pos: Vec<Vec<PosRef>>,
+    /// empty[pool] = [narrow, wide]: positions of the same owner that were opened and never funded (liquidity 0, nothing owed)
+    pub empty: Vec<Vec<PosRef>>,
     /// rvault[pool][reward index]
     pub rvault: Vec<[Pubkey; 3]>,
 }
@@ -477,6 +479,22 @@ pub fn build_uni(l: &mut Ledger, label: &str, v: Variant) -> Uni {
         }
         pos.push(v_pos);
     }
+    // positions without liquidity (same owner, same ranges): code that only looks at a position once it holds liquidity must
+    // still refuse one that belongs to another pool
+    let mut empty = vec![];
+    for (i, p) in pools.iter().enumerate() {
+        let mut v_pos = vec![];
+        for (j, (lo, hi)) in [NARROW, WIDE].iter().enumerate() {
+            let t22_nft = match v {
+                Variant::Spl => j == 1,
+                Variant::Mixed => j != 1,
+            };
+            let pr = pos_ref(p, &format!("{label}/{}/empty{j}", POOL_NAMES[i]), lp.owner, *lo, *hi, t22_nft);
+            must("open_position(empty)", svm::process(l, &ix_open_position(&pr, funder)));
+            v_pos.push(pr);
+        }
+        empty.push(v_pos);
+    }
 
     // rewards (see Uni::reward_mint_id), funded, emitting
     let mut rvault = vec![];
@@ -505,7 +523,7 @@ pub fn build_uni(l: &mut Ledger, label: &str, v: Variant) -> Uni {
         }
         rvault.push(vs);
     }
-    Uni { label: label.to_string(), cfg, funder, mints, rmints, pools, lp, trader, other, feedest, pos, rvault }
+    Uni { label: label.to_string(), cfg, funder, mints, rmints, pools, lp, trader, other, feedest, pos, empty, rvault }
 }
 
 /// Let time pass, trade in both directions on every pool (fees + protocol fees accrue), settle every position.
